@@ -64,7 +64,12 @@ class StubGP:
         if self.mode == "lattice":
             q = self.floor * 1e5 / 8
             h = np.maximum(q, np.round(h / q) * q)
-        return np.maximum(self.floor, h)
+        h = np.maximum(self.floor, h)
+        if self.shape == "ell":
+            # axis ratio capped at 1e3 (covariance condition number 1e6): beyond that sqrtm(inv(Sigma)) in the real
+            # predicates is numerically meaningless (same limit as the direct C09/C10 workloads)
+            h = np.maximum(h, h.max() / 1e3)
+        return h
 
     def _state(self, i):
         key = (i, self.version)
